@@ -460,7 +460,7 @@ class C20(Suite):
     obs_ty = "list step_obs"
     corr = ("SPARQLStore.triples/__len__/contexts/query/_is_contextual, SPARQLUpdateStore.add/addN/remove/update/add_graph/"
             "remove_graph/commit/rollback/_transaction, SPARQLConnector.query/update")
-    quick_n = 400
+    quick_n = 350
     thorough_n = 10000
     timeout_s = 20.0
 
@@ -929,7 +929,7 @@ class C20Wire(C20):
     spec = "wire_spec"
     corr = ("SPARQLStore.triples/__len__/contexts (query text, default-graph-uri), SPARQLUpdateStore.add/addN/remove/add_graph/"
             "remove_graph (statement text), commit (joining), SPARQLConnector.query/update (what is sent)")
-    quick_n = 150
+    quick_n = 120
     thorough_n = 3000
 
     def gen(self, rng, i):
@@ -994,7 +994,7 @@ class C20Rewrite(Suite):
     oeq = "rewrite_eqb"
     spec = "rewrite_spec"
     corr = "SPARQLUpdateStore.update/_insert_named_graph/BLOCK_FINDING_PATTERN/where_pattern, SPARQLStore.query/_inject_prefixes"
-    quick_n = 250
+    quick_n = 200
     thorough_n = 5000
     timeout_s = 20.0
 
